@@ -2,7 +2,7 @@
 From Coq Require Import List String Bool Arith.
 Import ListNotations.
 From ClasticV Require Import Base.Py Base.FSet Gen.Tables Model.Chain Model.Exec
-     Proofs.ChainProofs Proofs.ExecProofs Proofs.RouteProofs Proofs.OnionProofs.
+     Proofs.ChainProofs Proofs.ExecProofs Proofs.RouteProofs Proofs.OnionProofs Proofs.ValueProofs Proofs.NestedProofs.
 Local Open Scope string_scope.
 Local Open Scope list_scope.
 
@@ -95,6 +95,37 @@ Theorem C03_short_circuit :
   onion sc Fin fs o tr -> exists k, entered tr = firstn k fs /\ 0 < k.
 Proof. exact onion_entered_prefix. Qed.
 Print Assumptions C03_short_circuit.
+
+(* EMBEDDING.  For an application embedded under a prefix in an outer application (Chain.build_nested): the middleware
+   list of the re-bound route is the ONE keep-first pass over  outer ++ embedded application's ++ route's own  - the
+   outermost application's first, a unique type once at its outermost position - and the request's trace is the onion
+   over exactly that list. *)
+Theorem C03_embedded_order_and_onion :
+  forall o a pn pr m2 sc inj,
+  build_nested o a = Ok (pn, pr, m2) ->
+  (match merge_into (o_mws o) (a_mws a) with Ok acc => merge_into acc (a_route_mws a) | Raise c => Raise "ValueError" end) = Ok m2 /\
+  (no_posonly m2 (a_endpoint a) (a_render a) ->
+   (forall x, In x (base (nested_route_cfg o a m2)) -> In x (map fst inj)) ->
+   onion sc (proc_shape sc m2) (map fid_of (phase_funcs PhReq m2) ++ [FProc]) (fst (run sc pr inj)) (snd (run sc pr inj))).
+Proof.
+  intros o a pn pr m2 sc inj Hb. split.
+  - destruct (nested_accept o a pn pr m2 Hb) as (_ & _ & _ & _ & Hm & _). exact Hm.
+  - intros Hp Hi. exact (nested_trace_is_onion o a pn pr m2 sc inj Hb Hp Hi).
+Qed.
+Print Assumptions C03_embedded_order_and_onion.
+
+(* merging twice (route into inner, result into outer) is merging once over the flat list, success and failure alike *)
+Theorem C03_nested_merge_is_flat : forall route_mws inner_mws outer_mws,
+  match merge_middlewares route_mws inner_mws with
+  | Ok l1 => merge_middlewares l1 outer_mws
+  | Raise c => Raise c
+  end =
+  match merge_into outer_mws inner_mws with
+  | Ok acc => merge_into acc route_mws
+  | Raise c => Raise "ValueError"
+  end.
+Proof. exact nested_merge_is_flat. Qed.
+Print Assumptions C03_nested_merge_is_flat.
 
 (* the render phase runs iff the endpoint side produced a non-Response without raising *)
 Definition c3_mw (i : nat) : mw :=
